@@ -287,6 +287,16 @@ Harness = Callable[[Sym], Tuple[str, Dict[str, Any]]]
 KnownMatcher = Callable[[str, Sym, Dict[str, Any]], Optional[str]]
 
 
+def _reset_marks() -> None:
+    """Per-harness-invocation reset of marks the generated node bodies leave on node instances."""
+    try:
+        from . import spec as _spec
+
+        _spec.reset_instance_marks()
+    except Exception:  # noqa: BLE001
+        pass
+
+
 def explore(
     name: str,
     fn: Harness,
@@ -336,11 +346,22 @@ def explore(
                 label = None
                 info: Dict[str, Any] = {}
                 with ExceptionFilter() as efilter, ResumedTracing():
+                    _reset_marks()
                     label, info = fn(sym)
                     cf_guard.check()
+                    # a harness may report several violated clauses: the path is tolerated only if EVERY one of
+                    # them is a known finding (evaluated symbolically); the first that is not is the verdict
+                    labels = [l for l in (label if isinstance(label, (list, tuple)) else [label]) if l != "ok"]
                     kf = None
-                    if label != "ok" and known is not None:
-                        kf = known(label, sym, info)
+                    label = "ok"
+                    for lab in labels:
+                        k1 = known(lab, sym, info) if known is not None else None
+                        if k1 is None:
+                            label, kf = lab, None
+                            break
+                        if kf is None:
+                            label, kf = lab, k1
+                    info = dict(info, all_labels=list(labels))
                 if efilter.user_exc:
                     exc = efilter.user_exc[0]
                     if isinstance(exc, NotDeterministic):
@@ -379,7 +400,12 @@ def explore(
             # concrete cross-check of the witness (guard rail 2)
             if crosscheck:
                 try:
+                    _reset_marks()
                     c_label, c_info = fn(Conc(rec.witness))
+                    c_all = [l for l in (c_label if isinstance(c_label, (list, tuple)) else [c_label]) if l != "ok"]
+                    c_label = rec.label if (rec.label in c_all or (rec.label == "ok" and not c_all)) else (c_all[0] if c_all else "ok")
+                    if sorted(c_all) != sorted(rec.info.get("all_labels", [])):
+                        c_label = "<labels differ: %r>" % (c_all,)
                 except AssumptionFailed:
                     c_label, c_info = "<assumption failed>", {}
                 except BaseException as e:  # noqa: BLE001
